@@ -16,7 +16,13 @@ func genC11(seed uint64, run int, tier string) Scenario {
 	r := kernel.Stream(kernel.RunSeed(seed, "C11", run), "pick")
 	var sc *Session
 	if r.IntN(10) < 6 {
-		sc = genC10(seed^0xc11, run, tier).(*Session)
+		// (in-channel ssh logins carry two secrets, telnet ones one: two thirds are ssh)
+		for i := 0; ; i++ {
+			sc = genC10(seed^0xc11, run*4+i, tier).(*Session)
+			if sc.Auth == "ssh" || i > 0 || r.IntN(3) == 0 {
+				break
+			}
+		}
 		sc.Sub = "C10"
 	} else {
 		// escalation dialogues (asks / grants / refuses) with a generated secondary secret
